@@ -21,10 +21,25 @@ def oraclesOf (c : Json) : Oracles :=
     anchorTimeOK := fun _ _ => !(((c.get? "tv_fail").bind Json.bool?).getD false)
     uri := uriOracle (c.getD "uri") }
 
+/-- the JSON reading of request text as the request structs see it (member names up to case) -/
+def requestReading (text : List Char) : Option Json :=
+  (Parse.parse text).map (GoJson.view Parser.requestShape)
+
+/-- two members of one object decoded into the same struct field: outside the model -/
+def requestAmbiguous (text : List Char) : Bool :=
+  match Parse.parse text with
+  | some j => !GoJson.dupFree Parser.requestShape j
+  | none => false
+
 /-- request bytes (hex) → (size, JSON reading) -/
 def requestOf (hex : String) : Nat × Option Json :=
   let bs := (bytesOfHex? hex.toList).getD []
-  (bs.length, (stringOfBytes? bs).bind fun t => Parse.parse t.toList)
+  (bs.length, (stringOfBytes? bs).bind fun t => requestReading t.toList)
+
+def requestAmbiguousHex (hex : String) : Bool :=
+  match stringOfBytes? ((bytesOfHex? hex.toList).getD []) with
+  | some t => requestAmbiguous t.toList
+  | none => false
 
 def optJson : Option Json → Json
   | some j => j
@@ -34,6 +49,7 @@ def opTypeJson (t : OpType) : Json := .str t.toString
 
 /-- kind `parse` (C07, C03) -/
 def parseKind (c : Json) : Json :=
+  if requestAmbiguousHex (getStr c "req") then outOfDomain "two members of one object decode into the same field" else
   let cfg := Protocol.ofJson (c.getD "cfg")
   let (size, req) := requestOf (getStr c "req")
   let res := Parser.parse hashFam cfg (oraclesOf c) (getStr c "ns") size req
